@@ -523,7 +523,7 @@ pub fn run(mut rep: Report) -> ! {
     rep.assume("the inlined program is evaluated by the same binary (the evaluator itself is C01's business); inclusion is not transitive (a module's includes are not visible to its includer), as observed and as the negative list asserts");
     let scratch = Scratch::new("c16");
     let root = scratch.path.clone();
-    let n = rep.n(1_500, 100_000);
+    let n = rep.n(1_500, 20_000);
     {
         let r = root.clone();
         rep.random("module-graphs", n, 160, move |src| graph_case(src, &r));
